@@ -207,8 +207,8 @@ theorem asmStep_frame (cf : CFile) (ap : Bool) (st : FS × List Kind) (t : Optio
 /-! ### evaluating `assemble` in the kernel (for non-vacuity examples): `expand` is defined by well-founded
 recursion and does not reduce, so it is taken out for programs without INCLUDE -/
 
-theorem expand_go_noinc (fs : Asm.Files) (fuel : Nat) : ∀ l : List Asm.Stmt,
-    (∀ s ∈ l, s.row.isInclude = false) → Asm.expand.go fs fuel l = .ok l := by
+theorem expand_go_noinc (fs : Asm.Files) (fuel : Nat) (inc : List (List Char)) : ∀ l : List Asm.Stmt,
+    (∀ s ∈ l, s.row.isInclude = false) → Asm.expand.go fs fuel inc l = .ok l := by
   intro l
   induction l with
   | nil => intro _; simp [Asm.expand.go]
@@ -218,9 +218,9 @@ theorem expand_go_noinc (fs : Asm.Files) (fuel : Nat) : ∀ l : List Asm.Stmt,
     rw [Asm.expand.go]
     simp [hs, ih (fun x hx => h x (List.mem_cons_of_mem _ hx))]
 
-theorem expand_noinc (fs : Asm.Files) (fuel : Nat) (l : List Asm.Stmt) (h : ∀ s ∈ l, s.row.isInclude = false) :
-    Asm.expand fs (fuel + 1) l = .ok l := by
-  rw [Asm.expand]; exact expand_go_noinc fs fuel l h
+theorem expand_noinc (fs : Asm.Files) (fuel : Nat) (inc : List (List Char)) (l : List Asm.Stmt)
+    (h : ∀ s ∈ l, s.row.isInclude = false) : Asm.expand fs (fuel + 1) inc l = .ok l := by
+  rw [Asm.expand]; exact expand_go_noinc fs fuel inc l h
 
 /-- a check on the result of `assemble` for a program without INCLUDE, computed without `expand` -/
 def checkNoInc (lines : List (List Char)) (chk : Asm.Assembly → Bool) : Bool :=
@@ -263,7 +263,7 @@ theorem checkNoInc_sound {fs : Asm.Files} {lines : List (List Char)} {chk : Asm.
     obtain ⟨hall, h⟩ := h
     have hni : ∀ s ∈ parsed, s.row.isInclude = false := by
       intro s hs; simpa using List.all_eq_true.mp hall s hs
-    simp only [expand_noinc fs 63 parsed hni]
+    simp only [expand_noinc fs 63 [] parsed hni]
     cases h1 : Asm.buildSymTab parsed 0 [] with
     | none => simp [h1] at h
     | some t =>
